@@ -1,6 +1,7 @@
 package c28
 
 import (
+	"bytes"
 	"encoding/base64"
 	"encoding/json"
 	"fmt"
@@ -228,47 +229,52 @@ func (w *world) runCase(c Case) (res result) {
 	return res
 }
 
-func (w *world) runCase0(c Case) result {
-	if c.Mut == "twin" {
-		return w.twin(c)
-	}
+// prepared is one catalogue case applied to a freshly built object: the encoded genuine object, the encoded
+// mutated one and the network id the mutated one is validated under (the netid case: the same bytes, another id).
+type prepared struct {
+	orig, mutated []byte
+	netM          base.NetworkID
+	from, to      string
+}
 
+func (w *world) prepare(c Case) (*prepared, *result) {
 	obj := w.Build(c.Kind)
 
 	orig, err := util.MarshalJSON(obj)
 	if err != nil {
-		return result{Outcome: "error", Err: err.Error()}
+		return nil, &result{Outcome: "error", Err: err.Error()}
 	}
 
 	var tree interface{}
 	if err := json.Unmarshal(orig, &tree); err != nil {
-		return result{Outcome: "error", Err: err.Error()}
+		return nil, &result{Outcome: "error", Err: err.Error()}
 	}
 
-	var from, to string
-
-	netID := NetworkID
+	p := &prepared{orig: orig, netM: NetworkID}
 
 	switch c.Mut {
 	case "field":
 		if err := setPath(tree, c.Path, func(v interface{}) (interface{}, error) {
 			nv, err := w.otherValue(c, v)
-			from, to = fmt.Sprint(v), fmt.Sprint(nv)
+			p.from, p.to = fmt.Sprint(v), fmt.Sprint(nv)
 
 			return nv, err
 		}); err != nil {
-			return result{Outcome: "error", Err: err.Error()}
+			return nil, &result{Outcome: "error", Err: err.Error()}
 		}
 	case "kind":
 		if err := setPath(tree, c.Path, func(v interface{}) (interface{}, error) {
-			from, to = fmt.Sprint(v), c.To+"-v0.0.1"
+			p.from, p.to = fmt.Sprint(v), c.To+"-v0.0.1"
 
-			return to, nil
+			return p.to, nil
 		}); err != nil {
-			return result{Outcome: "error", Err: err.Error()}
+			return nil, &result{Outcome: "error", Err: err.Error()}
 		}
 	case "netid":
-		netID = OtherNetworkID
+		p.netM = OtherNetworkID
+		p.mutated = orig
+
+		return p, nil
 	case "signs-drop-all", "signs-drop-one", "signs-dup", "signs-swap":
 		m := tree.(map[string]interface{}) //nolint:forcetypeassert //...
 		signs := m["signs"].([]interface{}) //nolint:forcetypeassert //...
@@ -286,37 +292,132 @@ func (w *world) runCase0(c Case) result {
 			m["signs"] = n
 		}
 	default:
-		return result{Outcome: "error", Err: "unknown mutation " + c.Mut}
+		return nil, &result{Outcome: "error", Err: "unknown mutation " + c.Mut}
 	}
 
 	mutated, err := json.Marshal(tree)
 	if err != nil {
-		return result{Outcome: "error", Err: err.Error()}
+		return nil, &result{Outcome: "error", Err: err.Error()}
 	}
 
-	dec, err := w.enc.Decode(mutated)
-	if err != nil {
-		return result{Outcome: "rejected-decode", Err: short(err), From: from, ToVal: to}
+	p.mutated = mutated
+
+	return p, nil
+}
+
+// validate is what a receiving node does: decode with the real encoder (or take the instance decoded earlier),
+// IsValid(network id).
+func (w *world) validate(b []byte, inst interface{}, net base.NetworkID) (dec interface{}, res result) {
+	dec = inst
+
+	if dec == nil {
+		i, err := w.enc.Decode(b)
+		if err != nil {
+			return nil, result{Outcome: "rejected-decode", Err: short(err)}
+		}
+
+		dec = i
 	}
 
 	v, ok := dec.(util.IsValider)
 	if !ok {
-		return result{Outcome: "error", Err: fmt.Sprintf("%T is not an IsValider", dec)}
+		return dec, result{Outcome: "error", Err: fmt.Sprintf("%T is not an IsValider", dec)}
 	}
 
-	if err := v.IsValid(netID); err != nil {
-		return result{Outcome: "rejected-isvalid", Err: short(err), From: from, ToVal: to}
+	if err := v.IsValid(net); err != nil {
+		return dec, result{Outcome: "rejected-isvalid", Err: short(err)}
+	}
+
+	return dec, result{Outcome: "accepted"}
+}
+
+func (w *world) runCase0(c Case) result {
+	if c.Mut == "twin" {
+		return w.twin(c)
+	}
+
+	p, bad := w.prepare(c)
+	if bad != nil {
+		return *bad
+	}
+
+	dec, res := w.validate(p.mutated, nil, p.netM)
+	res.From, res.ToVal = p.from, p.to
+
+	if res.Outcome != "accepted" {
+		return res
 	}
 
 	if c.Mut != "netid" {
 		// did the mutation survive decoding? (the decoded object, encoded again, must differ from the original)
 		again, err := util.MarshalJSON(dec)
-		if err == nil && jsonEqual(again, orig) {
-			return result{Outcome: "noop", From: from, ToVal: to}
+		if err == nil && jsonEqual(again, p.orig) {
+			res.Outcome = "noop"
 		}
 	}
 
-	return result{Outcome: "accepted", From: from, ToVal: to}
+	return res
+}
+
+// HStep is one validation of a history of spec/SignedObjects.tla: the genuine object under its own network id
+// ("G") or the mutated one of the case ("M"), on a freshly decoded copy or on the instance decoded earlier in
+// this history from the same bytes.
+type HStep struct {
+	R    string `json:"r"`
+	Copy string `json:"copy"`
+	Ok   bool   `json:"ok"`
+}
+
+type stepResult struct {
+	Outcome string `json:"outcome"`
+	Err     string `json:"err,omitempty"`
+}
+
+// runHistory validates, in this one process, the requests of the history on an object nothing in the process
+// has seen before (every Build differs from every earlier one in every hash and signature).
+func (w *world) runHistory(c Case, hist []HStep) []stepResult {
+	p, bad := w.prepare(c)
+	if bad != nil {
+		return []stepResult{{Outcome: "error", Err: bad.Err}}
+	}
+
+	sameBytes := bytes.Equal(p.orig, p.mutated)
+	insts := map[string]interface{}{}
+	out := make([]stepResult, 0, len(hist))
+
+	for _, st := range hist {
+		b, net, key := p.orig, NetworkID, "g"
+
+		if st.R == "M" {
+			b, net = p.mutated, p.netM
+
+			if !sameBytes {
+				key = "m"
+			}
+		}
+
+		var inst interface{}
+		if st.Copy == "same" {
+			inst = insts[key] // nil (decoded again) if the bytes could not be decoded before
+		}
+
+		var res result
+
+		if pan := h.Catch(func() {
+			var dec interface{}
+
+			dec, res = w.validate(b, inst, net)
+			if dec != nil {
+				insts[key] = dec
+			}
+		}); pan != "" {
+			res = result{Outcome: "panic", Err: pan[:min(len(pan), 300)]}
+		}
+
+		out = append(out, stepResult{Outcome: res.Outcome, Err: res.Err})
+	}
+
+	return out
 }
 
 func jsonEqual(a, b []byte) bool {
@@ -358,13 +459,29 @@ func replay(w *world, in, out string) error {
 	}
 
 	return h.ReadNDJSON(in, func(line []byte) error {
-		var c Case
+		var c struct {
+			Case
+			Hists [][]HStep `json:"hists"`
+		}
+
 		if err := json.Unmarshal(line, &c); err != nil {
 			return err
 		}
 
-		r := w.runCase(c)
-		o.Emit(map[string]interface{}{"outcome": r.Outcome, "err": r.Err, "from": r.From, "toval": r.ToVal})
+		r := w.runCase(c.Case)
+		row := map[string]interface{}{"outcome": r.Outcome, "err": r.Err, "from": r.From, "toval": r.ToVal}
+
+		// the histories of the case: a mutation without effect has no mutated object, a twin is not validated
+		if len(c.Hists) > 0 && c.Mut != "twin" && r.Outcome != "noop" && r.Outcome != "error" {
+			hs := make([][]stepResult, 0, len(c.Hists))
+			for _, hist := range c.Hists {
+				hs = append(hs, w.runHistory(c.Case, hist))
+			}
+
+			row["hists"] = hs
+		}
+
+		o.Emit(row)
 
 		return nil
 	})
